@@ -331,7 +331,7 @@ def cosim_one(args):
         out.pop('received_live', None)
 
     ctx = vrt.run_scenario(scenario, refbroker.factory(policy), seed=seed, p_preempt=0.12, p_jump=0.03,
-                           repo_path=str(common.REPO), max_steps=3000000, real_timeout=120.0)
+                           fair_time=(seed % 2 == 1), repo_path=str(common.REPO), max_steps=3000000, real_timeout=120.0)
     out['abort'] = ctx.sched.abort_reason
     out['preemptions'] = ctx.sched.preemptions
     out['thread_excs'] = [(t.name, repr(t.exc)) for t in ctx.sched.threads if t.exc is not None and t.kind == 'app']
